@@ -148,6 +148,10 @@ impl Cli {
         (e, p)
     }
     pub fn drop_slot(&self, slot: &Path) {
+        // development aid: VERIF_CLI_KEEP=1 leaves the generated inputs in the scratch directory
+        if std::env::var_os("VERIF_CLI_KEEP").is_some() {
+            return;
+        }
         let _ = std::fs::remove_dir_all(slot);
     }
 
